@@ -78,6 +78,12 @@ def _st_libsql_table(path):
     _mk(path, "CREATE TABLE libsql_notes (a text); INSERT INTO libsql_notes VALUES ('keep me');")
 
 
+def _st_sqlite3_table(path):
+    # a legal user table name ("sqlite_" is reserved, "sqlite3_" is not); the inspection filters with
+    # NOT LIKE 'sqlite_%' where "_" is a LIKE wildcard
+    _mk(path, "CREATE TABLE sqlite3_meta (a text); INSERT INTO sqlite3_meta VALUES ('keep me');")
+
+
 def _st_orphan_index(path):
     _mk(path, """CREATE TABLE o (a);
 CREATE INDEX oi ON o (a);
@@ -102,6 +108,7 @@ DEV_STATES = {
     "table+index+trigger": ("nonempty", _st_table_index_trigger, True),
     "revisions-only": ("nonempty", _st_revisions_only, True),
     "libsql-table": ("nonempty", _st_libsql_table, True),
+    "sqlite3-table": ("nonempty", _st_sqlite3_table, True),
     "seq-only": ("internal", _st_seq_only, True),
     "orphan-index": ("malformed", _st_orphan_index, True),
     # WAL-mode file: a reader may legitimately create/remove -wal/-shm; file hash is a counter only.
@@ -246,6 +253,16 @@ TX_KINDS = {
     "rollback-to-unknown-savepoint": (["CREATE TABLE zz_r (id int)", "ROLLBACK TO zz_nosuch"], True, False),
 }
 TX_OPEN_KINDS = [k for k, v in TX_KINDS.items() if v[2]]
+
+# Statements that all SUCCEED on SQLite but make Atlas's inspection of the dev database (reading the state
+# back after the replay) fail. Same tuple format as TX_KINDS.
+POISON_KINDS = {
+    "inspect-fails:fk-ref-column": (["CREATE TABLE zz_pa (id integer PRIMARY KEY)",
+                                     "CREATE TABLE zz_pf (id integer PRIMARY KEY, p integer REFERENCES zz_pf (nope))"], False, False),
+    "inspect-fails:type-size": (["CREATE TABLE zz_ps (a varchar(99999999999999999999))"], False, False),
+    "inspect-fails:quote-in-table-name": (["CREATE TABLE \"zz_p'q\" (a int)"], False, False),
+}
+TX_KINDS.update(POISON_KINDS)
 
 
 def fail_block(kind):
